@@ -103,8 +103,8 @@ struct Cell { Acc e[CELL_ENTRIES]; };
 struct Block { uintptr_t lo, hi; std::vector<Cell> cells; uint64_t ordinal; char kind; };
 
 enum YieldKind { Y_MEM = 0, Y_LOCK, Y_LOCKED, Y_UNLOCK, Y_SYSCALL, Y_ATOMIC, Y_START, Y_EXIT, Y_OPBOUNDARY };
-enum Strategy { S_SEQUENTIAL = 0, S_RANDOM, S_PCT, S_LOSER_FIRST, S_COARSE, S_NSTRATEGIES };
-static const char *strategy_name[S_NSTRATEGIES] = {"sequential", "random", "pct", "loser_first", "coarse"};
+enum Strategy { S_SEQUENTIAL = 0, S_RANDOM, S_PCT, S_LOSER_FIRST, S_COARSE, S_TRACE, S_NSTRATEGIES };
+static const char *strategy_name[S_NSTRATEGIES] = {"sequential", "random", "pct", "loser_first", "coarse", "explicit"};
 enum TState { T_NEW = 0, T_RUNNABLE, T_BLOCKED_MUTEX, T_BLOCKED_SPIN, T_FINISHED, T_DEAD };
 
 struct SimThread {
@@ -132,6 +132,9 @@ struct Runtime {
     std::vector<uint64_t> pct_points;
     uint64_t est_steps = 3000;
     std::vector<int> seq_order; // for S_SEQUENTIAL: preferred order of threads
+    uint64_t decisions = 0;                                   // scheduling decisions taken so far
+    std::vector<std::pair<uint64_t, int>> recorded, trace_in; // deviations from the default policy: recorded / to replay (S_TRACE)
+    size_t trace_pos = 0;
     uint64_t steps = 0, step_cap = 400000, preemptions = 0, switches = 0;
     sim::Digest trace;          // interleaving digest: (thread, kind, relative address) at every yield point
     uint64_t mem_events = 0, heap_events = 0, reads_never_written = 0, shadow_evictions = 0;
@@ -167,6 +170,7 @@ struct Runtime {
         sched.seed(sched_seed);
         steps = preemptions = switches = mem_events = heap_events = reads_never_written = shadow_evictions = preempt_marked = 0;
         counters.clear();
+        decisions = 0; recorded.clear(); trace_pos = 0;
         trace = sim::Digest();
         data_cells.assign((data_hi - data_lo + 7) / 8, Cell());
         for (auto &c : data_cells) memset(&c, 0, sizeof c);
